@@ -47,10 +47,13 @@ def strategy(tier):
     when = st.one_of(st.floats(0.0, 9.0), st.floats(0.0, 9.0), st.floats(9.0, 400.0)).map(lambda x: round(x, 2))
     action = st.tuples(when, st.sampled_from(["reset", "reset", "setinfo"])).map(list)
     jitter = st.one_of(st.just([]), st.lists(st.sampled_from([0.0, 0.0, 0.01, 0.03, 0.05]), min_size=1, max_size=7))
+    smap = st.dictionaries(st.sampled_from(["CLIENT_FACADE_TEARDOWN", "RUNNING_SPA_DISCONNECTED", "RUNNING_PING_RECEIVED",
+                                            "CONNECTION_STARTED", "LOCATING_FINISHED", "CLIENT_FACADE_IS_READY"]),
+                           st.sampled_from([0.05, 0.3, 0.8]), max_size=2)
     return st.builds(
-        lambda ph, ac, j, su, poke: {"phases": ph, "actions": sorted(ac), "jitter": j, "suspend": su, "poke": poke},
+        lambda ph, ac, j, su, poke, sm: {"phases": ph, "actions": sorted(ac), "jitter": j, "suspend": su, "poke": poke, "suspend_map": sm},
         st.lists(phase, min_size=1, max_size=6), st.lists(action, max_size=3), jitter,
-        st.lists(st.sampled_from([0.0, 0.0, 0.0, 0.2, 1.0]), max_size=8), st.integers(0, 255))
+        st.lists(st.sampled_from([0.0, 0.0, 0.0, 0.2, 1.0]), max_size=8), st.integers(0, 255), smap)
 
 
 def _facade_mirror_problems(man, sim):
@@ -78,108 +81,31 @@ def _facade_mirror_problems(man, sim):
 
 
 def run_case(case) -> Result:
-    from geckolib import GeckoSpaState
-
     res = Result()
-    jitter = [min(float(j), J_MAX) for j in case.get("jitter", [])]
-    sc = manager.Scenario(jitter=jitter, suspend=case.get("suspend"))
-    W, sim, peer = sc.W, sc.sim, sc.peer
-    Man = manager.make_man_class()
-    info = {"overlap": False}
-
-    async def main(W):
-        async with Man(W, spa_identifier=manager.SPA_ID_STR, spa_address=peer.addr[0], spa_name="Spa") as man:
-            sc.man = man
-            man.suspend = list(case.get("suspend", []))
-            t0 = W.clock.t
-            actions = [(float(t), a) for t, a in case.get("actions", [])]
-            connected_since = None
-            blackout_since = None
-
-            async def tick():
-                nonlocal connected_since, blackout_since
-                sc.sample()
-                now = W.clock.t
-                while actions and actions[0][0] <= now - t0:
-                    _, a = actions.pop(0)
-                    if man.spa_state in (GeckoSpaState.LOCATING_SPAS, GeckoSpaState.CONNECTING, GeckoSpaState.LOCATED_SPAS):
-                        info["overlap"] = True
-                    if a == "reset":
-                        await man.async_reset()
-                    elif a == "setinfo":
-                        await man.async_set_spa_info(peer.addr[0], manager.SPA_ID_STR, "Spa")
-                    else:
-                        raise InvalidCase(a)
-                # blackout detection bound
-                if W.blackout and man.spa_state == GeckoSpaState.CONNECTED:
-                    if blackout_since is None:
-                        blackout_since = now
-                    elif now - blackout_since > B_DETECT:
-                        res.fail("C09|blackout-not-reported", f"still CONNECTED {now - blackout_since:.0f} virtual s into a blackout")
-                        blackout_since = now + 1e9
-                else:
-                    blackout_since = None
-
-            for kind, dur, arg in case["phases"]:
-                if kind not in ("healthy", "blackout", "rferr", "lossy"):
-                    raise InvalidCase(kind)
-                if kind != "healthy" and man.spa_state in (GeckoSpaState.LOCATING_SPAS, GeckoSpaState.CONNECTING, GeckoSpaState.LOCATED_SPAS, GeckoSpaState.IDLE):
-                    info["overlap"] = True
-                sc.apply("healthy")
-                if kind != "healthy":
-                    sc.apply(kind, True if arg is None else arg)
-                    # the spa lives on while we cannot talk to it
-                    b = bytearray(sim.structure.status_block)
-                    b[300] = (b[300] + 1 + case.get("poke", 0)) & 0xFF
-                    sim.structure.set_status_block(bytes(b))
-                t_end = W.clock.t + float(dur)
-                while W.clock.t < t_end:
-                    await W.sleep(min(0.25, max(0.01, t_end - W.clock.t)))
-                    await tick()
-            sc.apply("healthy")
-            t_h = W.clock.t
-            # remaining user actions still happen (they are part of "any moment")
-            ok_at = None
-            while W.clock.t - t_h < B_RECOVER + (actions[-1][0] if actions else 0):
-                await W.sleep(0.25)
-                await tick()
-                if not actions and man.spa_state == GeckoSpaState.CONNECTED and man.facade is not None:
-                    ok_at = W.clock.t
-                    break
-            pump = sc.pump_task()
-            pump_alive = pump is not None and not pump.done()
-            if ok_at is None:
-                why = ""
-                if pump is not None and pump.done() and not pump.cancelled():
-                    why = f" pump died: {pump.exception()!r}"
-                spa_there = man._spa is not None
-                res.fail(f"C09|not-recovered|{man.spa_state.name}|spa-{'present' if spa_there else 'absent'}|pump-{'alive' if pump_alive else 'dead'}",
-                         f"network healthy for {W.clock.t - t_h:.0f} virtual s but state is {man.spa_state.name}, facade={man.facade is not None}, "
-                         f"spa object {'present' if spa_there else 'absent'}.{why}")
-            else:
-                # the spa changed while we could not hear it: at the latest the next periodic
-                # refresh (<= 120 s idle) repairs the client's copy; then the facade must mirror the spa
-                probs = ["?"]
-                t_m = W.clock.t
-                while probs and W.clock.t - t_m < 300.0:
-                    await W.sleep(5.0)
-                    if man.spa_state != GeckoSpaState.CONNECTED or man.facade is None:
-                        probs = [f"left CONNECTED again on a healthy network: {man.spa_state.name}"]
-                        break
-                    probs = _facade_mirror_problems(man, sim)
-                for p in probs:
-                    res.fail("C09|facade-does-not-mirror", p)
-            if not all(alive for _, _, alive in sc.samples):
-                t_dead = next(t for t, _, alive in sc.samples if not alive)
-                exc = pump.exception() if pump is not None and pump.done() and not pump.cancelled() else None
-                res.fail(f"C09|pump-died|{type(exc).__name__ if exc else 'cancelled'}",
-                         f"sequence pump task ended at {t_dead - t0:.1f}s: {exc!r}")
-
-    W.run(main)
+    rec = manager.run_scenario(case, recover_bound=B_RECOVER, mirror_wait=300.0, detect_bound=B_DETECT)
+    rec["mirror_fn"] = _facade_mirror_problems
+    sc = rec["sc"]
+    sc.W.run(rec["main"])
+    t0 = rec["t0"]
+    if rec["detect_fail"] is not None:
+        res.fail("C09|blackout-not-reported", f"still CONNECTED {rec['detect_fail']:.0f} virtual s into a blackout")
+    if rec["ok_at"] is None:
+        why = f" pump died: {rec['pump_exc']!r}" if rec["pump_exc"] is not None else ""
+        res.fail(f"C09|not-recovered|{rec['final_state'].name}|spa-{'present' if rec['final_spa'] else 'absent'}|pump-{'alive' if rec['pump_alive'] else 'dead'}",
+                 f"network healthy for {rec['t_end'] - rec['t_h']:.0f} virtual s but state is {rec['final_state'].name}, "
+                 f"facade={rec['final_facade']}, spa object {'present' if rec['final_spa'] else 'absent'}.{why}")
+    else:
+        for p in rec["mirror"] or []:
+            res.fail("C09|facade-does-not-mirror", p)
+    if not all(alive for _, _, alive in sc.samples):
+        t_dead = next(t for t, _, alive in sc.samples if not alive)
+        exc = rec["pump_exc"]
+        res.fail(f"C09|pump-died|{type(exc).__name__ if exc else 'cancelled'}",
+                 f"sequence pump task ended at {t_dead - t0:.1f}s: {exc!r}")
     nonhealthy = sum(1 for k, _, _ in case["phases"] if k != "healthy")
-    res.nontrivial = info["overlap"] or nonhealthy >= 2
+    res.nontrivial = rec["overlap"] or nonhealthy >= 2
     res.label(f"nonhealthy-{min(nonhealthy, 3)}")
-    if info["overlap"]:
+    if rec["overlap"]:
         res.label("overlaps-discovery-or-handshake")
     if case.get("actions"):
         res.label("user-actions")
